@@ -129,9 +129,30 @@ fn adversarial(rng: &mut Rng) -> String {
     s
 }
 
-fn dot_record<G>(out: &mut Out, g: G, enc: &str, ag: &AG, rng: &mut Rng)
+/// A weight whose Display hands its text to the formatter one `char` at a time (`Formatter::write_char`), the way
+/// `char`, and user types that print piecewise, do: Dot's escaping must not depend on how the weight writes itself.
+#[derive(Clone)]
+struct Chars(String);
+impl std::fmt::Display for Chars {
+    fn fmt(&self, f: &mut std::fmt::Formatter<'_>) -> std::fmt::Result {
+        use std::fmt::Write;
+        for c in self.0.chars() { f.write_char(c)?; }
+        Ok(())
+    }
+}
+impl std::fmt::Debug for Chars {
+    fn fmt(&self, f: &mut std::fmt::Formatter<'_>) -> std::fmt::Result {
+        use std::fmt::Write;
+        f.write_char('"')?;
+        for c in self.0.chars() { for e in c.escape_debug() { f.write_char(e)?; } }
+        f.write_char('"')
+    }
+}
+
+fn dot_record<G, W>(out: &mut Out, g: G, enc: &str, ag: &AG, rng: &mut Rng)
 where
-    G: IntoNodeReferences + IntoEdgeReferences + NodeIndexable + GraphProp + Copy + Data<NodeWeight = String, EdgeWeight = String>,
+    W: std::fmt::Display + std::fmt::Debug,
+    G: IntoNodeReferences + IntoEdgeReferences + NodeIndexable + GraphProp + Copy + Data<NodeWeight = W, EdgeWeight = W>,
 {
     let all = [Config::NodeIndexLabel, Config::EdgeIndexLabel, Config::EdgeNoLabel, Config::NodeNoLabel, Config::GraphContentOnly];
     let names = ["NodeIndexLabel", "EdgeIndexLabel", "EdgeNoLabel", "NodeNoLabel", "GraphContentOnly"];
@@ -153,7 +174,7 @@ where
             let na = |_: G, _: G::NodeRef| "shape = box peripheries = 2".to_string();
             let d = if fmtk.starts_with("attr") { Dot::with_attr_getters(g, &cfg, &ea, &na) } else { Dot::with_config(g, &cfg) };
             let text = match fmtk { "display" | "attr_display" => format!("{}", d), "debug" | "attr_debug" => format!("{:?}", d), "alt_display" => format!("{:#}", d), _ => format!("{:#?}", d) };
-            let fw = |w: &String| match fmtk { "display" | "alt_display" | "attr_display" => format!("{}", w), _ => format!("{:?}", w) };
+            let fw = |w: &W| match fmtk { "display" | "alt_display" | "attr_display" => format!("{}", w), _ => format!("{:?}", w) };
             let mut f = Fields::new();
             f.insert("kind".into(), json!("dot"));
             f.insert("cfg".into(), json!(cfgn));
@@ -182,12 +203,16 @@ pub fn dot_case(out: &mut Out, ag: &AG, rng: &mut Rng) {
     if ag.directed {
         let g = build!(Graph, Directed);
         dot_record(out, &g, "graph", ag, rng);
+        let gc = g.map(|_, w| Chars(w.clone()), |_, w| Chars(w.clone()));
+        dot_record(out, &gc, "graph", ag, rng);
         let mut s = build!(StableGraph, Directed);
         if ag.n > 1 { let victim = petgraph::graph::NodeIndex::new(rng.below(ag.n - 1)); s.remove_node(victim); }
         dot_record(out, &s, "stable", ag, rng);
     } else {
         let g = build!(Graph, Undirected);
         dot_record(out, &g, "graph", ag, rng);
+        let gc = g.map(|_, w| Chars(w.clone()), |_, w| Chars(w.clone()));
+        dot_record(out, &gc, "graph", ag, rng);
         let mut s = build!(StableGraph, Undirected);
         if ag.n > 1 { let victim = petgraph::graph::NodeIndex::new(rng.below(ag.n - 1)); s.remove_node(victim); }
         dot_record(out, &s, "stable", ag, rng);
